@@ -115,6 +115,11 @@ pub fn ops() -> Vec<(&'static str, fn(&Fixture) -> String)> {
         ("load_doc3", |f| rc(f.model.load_buffer(DOC3.as_bytes(), "l3", true))),
         ("add_p_to_f2", |f| rc(f.h["p"].add_to_file(&f.file2))),
         ("duplicate", |f| rc(f.model.duplicate())),
+        ("create_pkg", |f| rc(f.h["pkgs"].create_named_sub_element(ElementName::ArPackage, "q"))),
+        ("remove_pkg_b", |f| rc(f.h["pkgs"].remove_sub_element(f.h["b"].clone()))),
+        ("set_filename_f1", |f| rc(f.file.set_filename("g1"))),
+        ("set_filename_f2", |f| rc(f.file2.set_filename("g2"))),
+        ("serialize_files", |f| { f.model.serialize_files().len(); "ok".into() }),
         ("cmp_s_t", |f| { let _ = f.h["s"].cmp(&f.h["t"]); "ok".into() }),
         ("version_compat", |f| { let _ = f.file.check_version_compatibility(AutosarVersion::Autosar_4_3_0); "ok".into() }),
     ]
